@@ -207,7 +207,7 @@ def check(ctx, rep):
         region = {m.write.path, m.flush.path}
         for pth, _bi, _d in (m.wbody.inlined or []):
             hb = cad.bodies.get(pth)
-            if hb is None or hb.j.get('reachable') or not hb.file.endswith('io.rs'):
+            if hb is None or hb.j.get('reachable') or not in_module_of(hb, W.MLW):
                 continue
             callers = set(y.path for y in cad.all_bodies for _, tt in y.calls() if tt.get('resolved') == pth)
             if callers and callers <= region | helper_paths | {pth}:
